@@ -133,6 +133,10 @@ def lib_open(mode, ciph, key, nonce, T, aad, ct, tag, path, decl=None):
             c = _new(mode, ciph, key, nonce, T)
             for comp in aad:
                 c.update(comp)
+            if path == "inplace":
+                buf = bytearray(ct)
+                c.decrypt_and_verify(buf, tag, output=buf)
+                return ("ok", bytes(buf))
             return ("ok", c.decrypt_and_verify(ct, tag))
         if path == "oneshot":
             c = _new(mode, ciph, key, nonce, T)
@@ -475,6 +479,12 @@ def aead_shards(quick):
     for mode, nl in (("GCM", 12), ("EAX", 16), ("OCB", 15), ("CHACHA", 12)):
         for alen in ((65536,) if quick else (65535, 65536)):
             sh.append((mode, "AES" if mode != "CHACHA" else "-", 16 if mode != "CHACHA" else 32, nl, (16,), alen, 17, 0, "big"))
+    # messages of many blocks (around the native 8-block key-stream batch, 16 blocks, and a page), every call path incl. in place
+    for mode, nl in (("GCM", 12), ("CCM", 11), ("EAX", 16), ("OCB", 15), ("CHACHA", 12)):
+        for ml in ((127, 128, 129, 255, 256, 257, 4097) if quick else (127, 128, 129, 143, 144, 145, 255, 256, 257, 511, 512, 513, 4095, 4096, 4097)):
+            sh.append((mode, "AES" if mode != "CHACHA" else "-", 16 if mode != "CHACHA" else 32, nl, (16,), 5, ml, 0, "bigmsg"))
+    for ml in (255, 256, 257):
+        sh.append(("SIV", "AES", 32, 16, (16,), (5,), ml, 0, "bigmsg"))
     return sh
 
 
@@ -821,7 +831,7 @@ def check_candidate(mode, ciph, T, key, nonce, aad, ct, tag, kind, detail, paths
                 cls = "rejected-authentic"
             else:
                 cls = None
-        acc.seen("classes", (mname, kind, p if mode != "SIV" else "oneshot", exp_accept, oc))
+        acc.seen("classes", (mname, kind, p, exp_accept, oc))
         if cls:
             problems.append((p, cls, o, exp_accept))
     exp_accept = exp_accept_all
@@ -949,6 +959,31 @@ def gen_aead_big(g, T):
     yield ("splice", "same-nonce ctC+tagA", key, nonce, aad, cC, tag, False)
 
 
+def gen_aead_bigmsg(g, T):
+    """reduced alphabet for messages of many blocks (past the native key-stream batch of 8 blocks and the page size), offered
+    through EVERY call path incl. decryption in place: the authentic tuple, the specification's tuple, changes at the ends and
+    in the middle of the ciphertext, at the ends of the tag, and the same-nonce splices"""
+    key, nonce, aad, bs = g.key, g.nonce, g.aad, g.bs
+    ct, tag = g.sealed[T]
+    yield ("authentic", "", key, nonce, aad, ct, tag, True)
+    rct, rtag = g.refsealed[T]
+    if (rct, rtag) != (ct, tag):
+        yield ("authentic-by-spec", "", key, nonce, aad, rct, rtag, True)
+    for i in (0, 8 * len(tag) - 1):
+        yield ("tag-bitflip", i, key, nonce, aad, ct, _flip(tag, i), True)
+    for i in sorted({0, 8 * len(ct) - 1, 8 * 127 + 7, 8 * 128, 4 * len(ct)}):
+        if i < 8 * len(ct):
+            yield ("ct-bitflip", i, key, nonce, aad, _flip(ct, i), tag, True)
+    yield ("ct-truncated", "last", key, nonce, aad, ct[:-1], tag, True)
+    yield ("ct-truncated", "block", key, nonce, aad, ct[:-bs], tag, True)
+    yield ("ct-extended", "00", key, nonce, aad, ct + b"\x00", tag, True)
+    yield ("ct-blockswap", "", key, nonce, aad, ct[bs:2 * bs] + ct[:bs] + ct[2 * bs:], tag, True)
+    cC, tC = g.sealedC[T]
+    yield ("authentic", "message-C", key, nonce, aad, cC, tC, True)
+    yield ("splice", "same-nonce ctC+tagA", key, nonce, aad, cC, tag, True)
+    yield ("splice", "same-nonce ctA[:128]+ctC[128:]", key, nonce, aad, ct[:128] + cC[128:], tag, True)
+
+
 def build_cfg(mode, ciph, kl, nl, ashape, ml, variant, special=None):
     g = Cfg()
     g.mode, g.ciph = mode, ciph
@@ -957,7 +992,7 @@ def build_cfg(mode, ciph, kl, nl, ashape, ml, variant, special=None):
     lab = "%s/%s/%s/%s/%s/%s" % (mode, ciph, kl, nl, ashape, ml)
     g.key = _val(variant, lab + "/key", kl)
     g.nonce = None if nl is None else _val(variant, lab + "/nonce", nl)
-    if special and special != "big":
+    if special and special not in ("big", "bigmsg"):
         assert mode == "GCM" and nl == 16 and special.startswith("j0-low32=")
         g.nonce = _gcm_nonce_for_j0(g.key, seeded("c01/" + lab + "/j0", 12) + bytes.fromhex(special[9:]))
     if mode == "SIV":
@@ -979,14 +1014,14 @@ def run_shard(shard, acc, every):
     mode, ciph, kl, nl, tlens, ashape, ml, variant = shard[:8]
     special = shard[8] if len(shard) > 8 else None
     g = build_cfg(mode, ciph, kl, nl, ashape, ml, variant, special)
-    if special == "big":
+    if special in ("big", "bigmsg"):
         g.legal_t = tuple(tlens)
     for T in g.legal_t:
         g.sealed[T] = lib_seal(mode, ciph, g.key, g.nonce, T, g.aad, g.pt)
         g.refsealed[T] = spec_seal(mode, ciph, g.key, g.nonce, T, g.aad, g.pt)
     pol = RefPolicy(every)
-    gen = gen_siv if mode == "SIV" else gen_aead_big if special == "big" else gen_aead
-    if special == "big":
+    gen = gen_siv if mode == "SIV" else gen_aead_big if special == "big" else gen_aead_bigmsg if special == "bigmsg" else gen_aead
+    if special in ("big", "bigmsg"):
         pol = RefPolicy(1)
     for T in tlens:
         g.sealedB[T] = lib_seal(mode, ciph, g.key, g.nonceB, T, g.aadB, g.ptB)
@@ -1002,7 +1037,8 @@ def run_shard(shard, acc, every):
                 continue
             seen.add(r)
             acc.count("candidates")
-            paths = PATHS_ONE if (mode == "SIV" or not allp) else (PATHS_CCM if mode == "CCM" else PATHS_OCB if mode == "OCB" else PATHS_ALL)
+            paths = (PATHS_ONE if not (allp and special == "bigmsg") else ("oneshot", "inplace")) if (mode == "SIV" or not allp) else \
+                (PATHS_CCM if mode == "CCM" else PATHS_OCB if mode == "OCB" else PATHS_ALL)
             ea = check_candidate(mode, ciph, T, key, nonce, aad, ct, tag, kind, detail, paths, acc, pol,
                                  decl=(len(g.aad), len(g.pt)) if mode == "CCM" else None)
             if kind == "authentic" and detail == "" and ea:
